@@ -1,7 +1,19 @@
 #!/bin/bash
-# Rebuild rigomc from /repo's CURRENT working tree (hooks enabled). ~2 s when the cache is warm.
+# Rebuild rigomc from the repository's CURRENT working tree (hooks enabled). ~2 s when the cache is warm.
+# VERIF_REPO (default /repo) selects the repository tree; a non-default tree builds $VERIF_BIN via an alternate go.mod
+# (used only by mutants/run.sh, which works on a private clone so that /repo is never touched).
 set -e
 cd "$(dirname "$0")/.."
 export GOFLAGS=-mod=mod GOPROXY=off GOSUMDB=off GOTOOLCHAIN=local CGO_ENABLED=1
-cp /repo/go.sum go.sum 2>/dev/null || true
-go build -tags verif -o bin/rigomc ./cmd/rigomc
+REPO="${VERIF_REPO:-/repo}"
+if [ "$REPO" = "/repo" ]; then
+  cp /repo/go.sum go.sum 2>/dev/null || true
+  go build -tags verif -o bin/rigomc ./cmd/rigomc
+else
+  OUT="${VERIF_BIN:-bin/rigomc.alt}"
+  ALT="$(mktemp -d /dev/shm/altmod.XXXXXX)"
+  sed "s#=> /repo#=> $REPO#" go.mod > "$ALT/go.mod"
+  cp "$REPO/go.sum" "$ALT/go.sum"
+  go build -modfile="$ALT/go.mod" -tags verif -o "$OUT" ./cmd/rigomc
+  rm -rf "$ALT"
+fi
